@@ -1,16 +1,18 @@
 (* C07 - EFDD/FSDD recover frequency and damping of an exact SDOF spectral bell; estimates unchanged under positive
    scaling of the spectral matrix.
-   Statements only: each theorem is closed by [exact] of a lemma of Proofs/P_efdd.v or Proofs/P_efdd_R.v.
+   Statements only: each theorem is closed by [exact] of a lemma of Proofs/P_efdd.v, Proofs/P_efdd_R.v or Proofs/P_efdd_svd.v.
    Proved (the ..._partial theorems together): construction of the bell (degree 1 in Sy for both methods, with the SVD
    oracle's triple transported; closed form on a rank-one-plus-floor matrix), scale invariance of everything the
    estimator computes after the SVD, exactness of the logarithmic-decrement fit and of the (xi, fn) formulas on an exact
-   decay.  NOT proved: the numerical accuracy envelope (2.5 % / 15 %) of the sampled, band-limited, zero-padded
+   decay; (section F) independence from WHICH decomposition meeting the SVD contract is used - the first singular pair is
+   unique up to a unit-modulus factor under a gap, MAC does not see that factor, hence the bell and everything after it are
+   equal - and the mode-shape clause in exact arithmetic (MAC = 1 for every decomposition, every n).  NOT proved: the numerical accuracy envelope (2.5 % / 15 %) of the sampled, band-limited, zero-padded
    transform - C07_full_statement below is a Definition and asserts nothing; the envelope is covered by the oracle
    sweep of harness/props/C07.py only. *)
 From Coq Require Import List Arith ZArith QArith Qcanon Reals String.
 From PyOMA.Base Require Import Carrier Cplx Show.
-From PyOMA.Model Require Import M_efdd.
-From PyOMA.Proofs Require Import P_efdd P_efdd_R.
+From PyOMA.Model Require Import M_efdd M_efdd_svd.
+From PyOMA.Proofs Require Import P_efdd P_efdd_R P_efdd_svd.
 Import ListNotations.
 
 (* ---------------------------------------------------------------------------------------------------------------
@@ -138,6 +140,172 @@ Theorem C07_logdec_chain_exact_partial :
 Proof. exact logdec_chain_exact. Qed.
 
 (* ---------------------------------------------------------------------------------------------------------------
+   F. WHICH decomposition?  numpy.linalg.svd returns one of many triples meeting its contract.
+   F1. The freedom that is always there: column k of U and of V times a number t k of modulus 1 (every commutative ring). *)
+Theorem C07_svd_rephased_meets_contract :
+  forall (R : Type) (K : Ops R),
+  ring_theory (o0 K) (o1 K) (oadd K) (omul K) (osub K) (oopp K) eq ->
+  forall (n : nat) (A U V : cmat R) (S : nat -> R) (t : nat -> C R),
+  (forall k : nat, (k < n)%nat -> unit_mod K (t k)) ->
+  svd_ok K n A U V S -> svd_ok K n A (rephase_cols K t U) (rephase_cols K t V) S.
+Proof. exact svd_ok_rephase. Qed.
+
+(* F2. MAC does not see a unit-modulus factor on the singular vector (every commutative ring, every n, phi, a). *)
+Theorem C07_mac_unit_factor :
+  forall (R : Type) (K : Ops R),
+  ring_theory (o0 K) (o1 K) (oadd K) (omul K) (osub K) (oopp K) eq ->
+  forall (n : nat) (x a : cvec R) (t : C R), unit_mod K t -> mac K n x (rephase_vec K t a) = mac K n x a.
+Proof. exact mac_rephase. Qed.
+
+(* F3. Uniqueness (every field with decidable equality, complex matrices, Hermitian transposes): two decompositions of ONE
+   matrix; if the square of S2 k differs from the squares of all S i, i <> k, and S2 k <> 0, column k of U2 is column k of U
+   times a number of modulus 1 and the squared values agree.  (A gap on the values alone is not enough on a generic field:
+   Base/Dim.v dim_example_svd_sign.) *)
+Theorem C07_singular_vector_unique :
+  forall (R : Type) (K : Ops R),
+  field_theory (o0 K) (o1 K) (oadd K) (omul K) (osub K) (oopp K) (odiv K) (oinv K) eq ->
+  (forall x y : R, {x = y} + {x <> y}) ->
+  forall (n : nat) (A U V : cmat R) (S : nat -> R) (U2 V2 : cmat R) (S2 : nat -> R),
+  svd_ok K n A U V S -> svd_ok K n A U2 V2 S2 ->
+  forall k : nat, (k < n)%nat ->
+  (forall i : nat, (i < n)%nat -> i <> k -> omul K (S i) (S i) <> omul K (S2 k) (S2 k)) ->
+  S2 k <> o0 K ->
+  exists t : C R,
+    unit_mod K t /\ (forall a : nat, (a < n)%nat -> U2 a k = cmul K (U a k) t) /\
+    omul K (S2 k) (S2 k) = omul K (S k) (S k).
+Proof. exact svd_vector_unique. Qed.
+
+(* F4. On an ordered formally real field (strict order ltb with four facts), with numpy's promise on the values for BOTH
+   decompositions (non-negative, the first a maximum) and the property's gap in ONE of them (first value positive and strictly
+   above the others): the first singular VALUE is the same number and the first singular VECTORS agree up to a unit-modulus
+   factor.  Nothing is asked of the gap of the second decomposition. *)
+Theorem C07_first_singular_pair_unique :
+  forall (R : Type) (K : Ops R),
+  field_theory (o0 K) (o1 K) (oadd K) (omul K) (osub K) (oopp K) (odiv K) (oinv K) eq ->
+  (forall a b : R, oadd K (omul K a a) (omul K b b) = o0 K -> a = o0 K) ->
+  forall ltb : R -> R -> bool,
+  (forall a : R, ltb a a = false) ->
+  (forall a b c : R, ltb a b = true -> ltb b c = true -> ltb a c = true) ->
+  (forall a b : R, ltb a b = false -> ltb b a = false -> a = b) ->
+  (forall c a b : R, ltb (o0 K) c = true -> ltb (omul K c a) (omul K c b) = ltb a b) ->
+  forall (n : nat) (A U V : cmat R) (S : nat -> R) (U2 V2 : cmat R) (S2 : nat -> R),
+  (0 < n)%nat ->
+  svd_ok K n A U V S -> svd_ok K n A U2 V2 S2 ->
+  sv_first_max K ltb n S -> sv_first_max K ltb n S2 -> sv_first_gap K ltb n S ->
+  S2 0%nat = S 0%nat /\
+  exists t : C R, unit_mod K t /\ forall a : nat, (a < n)%nat -> U2 a 0%nat = cmul K (U a 0%nat) t.
+Proof. exact first_vector_unique. Qed.
+
+(* F5. ... hence, line by line on the band [lo, hi) (line_ok: Model/M_efdd_svd.v), the first singular value, the MAC filter
+   decision, the bell term and the whole SDOF bell (one mode, cm = 1, the documented default) are EQUAL for the two families of
+   decompositions: both methods, every FDD shape phi, every MAC limit, every comparison gtb, every line (0 outside the band). *)
+Theorem C07_bell_svd_independent :
+  forall (R : Type) (K : Ops R),
+  field_theory (o0 K) (o1 K) (oadd K) (omul K) (osub K) (oopp K) (odiv K) (oinv K) eq ->
+  (forall a b : R, oadd K (omul K a a) (omul K b b) = o0 K -> a = o0 K) ->
+  forall ltb : R -> R -> bool,
+  (forall a : R, ltb a a = false) ->
+  (forall a b c : R, ltb a b = true -> ltb b c = true -> ltb a c = true) ->
+  (forall a b : R, ltb a b = false -> ltb b a = false -> a = b) ->
+  (forall c a b : R, ltb (o0 K) c = true -> ltb (omul K c a) (omul K c b) = ltb a b) ->
+  forall (n : nat) (Sy U V U2 V2 : nat -> cmat R) (S S2 : nat -> nat -> R) (lo hi : nat),
+  (0 < n)%nat ->
+  (forall l : nat, (lo <= l < hi)%nat -> line_ok K ltb n (Sy l) (U l) (V l) (S l) (U2 l) (V2 l) (S2 l)) ->
+  forall gtb : R -> R -> bool,
+  (forall l : nat, (lo <= l < hi)%nat -> S2 l 0%nat = S l 0%nat) /\
+  (forall (phi : cvec R) (lim : R) (l : nat), (lo <= l < hi)%nat ->
+     mac_pass K gtb n phi (svec_of K U2 l 0%nat) lim = mac_pass K gtb n phi (svec_of K U l 0%nat) lim) /\
+  (forall (m : meth) (phi : cvec R) (lim : R) (l : nat), (lo <= l < hi)%nat ->
+     bell_term K gtb m n phi (Sy l) (S2 l 0%nat) (svec_of K U2 l 0%nat) lim =
+     bell_term K gtb m n phi (Sy l) (S l 0%nat) (svec_of K U l 0%nat) lim) /\
+  (forall (m : meth) (phi : cvec R) (lim : R) (l : nat),
+     sdof_bell K gtb m n 1 phi Sy S2 (svec_of K U2) lim lo hi l = sdof_bell K gtb m n 1 phi Sy S (svec_of K U) lim lo hi l).
+Proof. exact bell_svd_independent. Qed.
+
+(* F6. ... and at the rationals everything computed after the SVD (extremum indices, log arguments, period, hence Fn, Xi) is the
+   same - for EVERY inverse transform (no hypothesis on it). *)
+Theorem C07_efdd_pipeline_svd_independent :
+  forall (ifft_re : list QcC -> list Qc) (m : meth) (n : nat) (phi : cvec Qc)
+    (Sy U V U2 V2 : nat -> cmat Qc) (S S2 : nat -> nat -> Qc) (lim : Qc) (lo hi Nf : nat) (tlag : Qc) (sppk npmax : nat),
+  (0 < n)%nat ->
+  (forall l : nat, (lo <= l < hi)%nat -> line_ok QcOps Qcltb n (Sy l) (U l) (V l) (S l) (U2 l) (V2 l) (S2 l)) ->
+  efdd_after_svd ifft_re (map (sdof_bell QcOps Qcgtb m n 1 phi Sy S2 (svec_of QcOps U2) lim lo hi) (seq 0 Nf)) tlag sppk npmax =
+  efdd_after_svd ifft_re (map (sdof_bell QcOps Qcgtb m n 1 phi Sy S (svec_of QcOps U) lim lo hi) (seq 0 Nf)) tlag sppk npmax.
+Proof. exact efdd_pipeline_svd_independent. Qed.
+
+(* F7. The executable list-level model (the one the correspondence check evaluates against fdd.SDOF_bellandMS) with the stored
+   vectors of every line multiplied by unit-modulus numbers ts[c] returns EXACTLY what it returns without them: band, error or
+   bell; both methods, every cm, phi, MAC limit, input. *)
+Theorem C07_bell_rephase_invariant :
+  forall (m : meth) (n cm Nf : nat) (h f DF : Qc) (phi : list QcC) (lim : Qc) (lo0 : nat) (ts : list QcC) (lines : list line_data),
+  (forall t : QcC, In t ts -> unit_mod QcOps t) ->
+  sdof_bell_lt m n cm Nf h f DF phi lim lo0 ts lines = sdof_bell_l m n cm Nf h f DF phi lim lo0 lines.
+Proof. exact sdof_bell_lt_invariant. Qed.
+
+(* F8. The mode-shape clause in exact arithmetic (every field, every n, COMPLEX shape phi): for Sy = s phi phi^H + eps I and
+   ANY decomposition meeting the contract, every left singular vector whose squared value differs from the squared floor is the
+   shape times a number, and its MAC with the shape is exactly 1 - also as the code stores it (conjugated). *)
+Theorem C07_shape_mac_one :
+  forall (R : Type) (K : Ops R),
+  field_theory (o0 K) (o1 K) (oadd K) (omul K) (osub K) (oopp K) (odiv K) (oinv K) eq ->
+  forall (n : nat) (phi : cvec R) (s eps : R) (U V : cmat R) (S : nat -> R) (k : nat),
+  (k < n)%nat ->
+  svd_ok K n (r1c_Sy K phi s eps) U V S ->
+  omul K (S k) (S k) <> omul K eps eps ->
+  (forall i : nat, (i < n)%nat -> U i k = cmul K (phi i) (shape_c R K n phi s eps U V S k)) /\
+  mac K n phi (fun i : nat => U i k) = o1 K /\
+  (forall l : nat, mac K n (fun i : nat => cconj K (phi i)) (svec_of K (fun _ : nat => U) l k) = o1 K).
+Proof.
+  intros R K Fth n phi s eps U V S k Hk C1 Hgap.
+  exact (conj (shape_collinear R K Fth n phi s eps U V S k Hk C1 Hgap)
+           (conj (shape_mac_one R K Fth n phi s eps U V S k Hk C1 Hgap) (shape_mac_one_stored R K Fth n phi s eps U V S k Hk C1 Hgap))).
+Qed.
+
+(* F9. The closed form of section B for EVERY decomposition (one mode): Sy = s phi phi^T + eps I as in C07_bell_rank_one_partial,
+   floor 0 <= eps < s|phi|^2 + eps, and ANY triple (U2, S2, V2) meeting the contract with non-negative values of which the
+   first is a maximum: S2 0 = s|phi|^2 + eps, the FDD shape has MAC exactly 1 with the first stored vector and passes the
+   filter on every line, and the SDOF bell is the closed form on the band and 0 outside, both methods. *)
+Theorem C07_bell_rank_one_any_svd :
+  forall (R : Type) (K : Ops R) (gtb : R -> R -> bool),
+  field_theory (o0 K) (o1 K) (oadd K) (omul K) (osub K) (oopp K) (odiv K) (oinv K) eq ->
+  (forall a b : R, oadd K (omul K a a) (omul K b b) = o0 K -> a = o0 K) ->
+  forall ltb : R -> R -> bool,
+  (forall a : R, ltb a a = false) ->
+  (forall a b c : R, ltb a b = true -> ltb b c = true -> ltb a c = true) ->
+  (forall a b : R, ltb a b = false -> ltb b a = false -> a = b) ->
+  (forall c a b : R, ltb (o0 K) c = true -> ltb (omul K c a) (omul K c b) = ltb a b) ->
+  forall (n : nat) (Ur : nat -> nat -> R) (nrm a s eps lim : R),
+  (0 < n)%nat ->
+  (forall i j : nat, (i < n)%nat -> (j < n)%nat -> sumn K n (fun k : nat => omul K (Ur k i) (Ur k j)) = kd R K i j) ->
+  (forall i j : nat, (i < n)%nat -> (j < n)%nat -> sumn K n (fun k : nat => omul K (Ur i k) (Ur j k)) = kd R K i j) ->
+  a <> o0 K ->
+  gtb (o1 K) lim = true ->
+  ltb eps (o0 K) = false ->
+  ltb eps (r1_S R K nrm s eps 0) = true ->
+  forall (U2 V2 : cmat R) (S2 : nat -> R),
+  svd_ok K n (r1_Sy R K Ur nrm s eps) U2 V2 S2 ->
+  sv_first_max K ltb n S2 ->
+  S2 0%nat = oadd K (omul K s (sumn K n (fun i : nat => omul K (r1_phi R K Ur nrm i) (r1_phi R K Ur nrm i)))) eps /\
+  (forall l : nat, mac K n (r1_phin R K Ur a) (svec_of K (fun _ : nat => U2) l 0) = o1 K) /\
+  (forall l : nat, mac_pass K gtb n (r1_phin R K Ur a) (svec_of K (fun _ : nat => U2) l 0) lim = true) /\
+  (forall (m : meth) (lo hi l : nat),
+     sdof_bell K gtb m n 1 (r1_phin R K Ur a) (fun _ : nat => r1_Sy R K Ur nrm s eps) (fun _ : nat => S2)
+       (svec_of K (fun _ : nat => U2)) lim lo hi l =
+     (if Nat.leb lo l && Nat.ltb l hi
+      then match m with
+           | EFDD => cofR K (oadd K (omul K s (sumn K n (fun i : nat => omul K (r1_phi R K Ur nrm i) (r1_phi R K Ur nrm i)))) eps)
+           | FSDD =>
+               cofR K
+                 (oadd K
+                    (omul K s
+                       (omul K (sumn K n (fun i : nat => omul K (r1_p R K Ur a i) (r1_phi R K Ur nrm i)))
+                          (sumn K n (fun i : nat => omul K (r1_p R K Ur a i) (r1_phi R K Ur nrm i)))))
+                    (omul K eps (sumn K n (fun i : nat => omul K (r1_p R K Ur a i) (r1_p R K Ur a i)))))
+           end
+      else c0 K)).
+Proof. exact bell_rank_one_any_svd. Qed.
+
+(* ---------------------------------------------------------------------------------------------------------------
    E. what is NOT proved: the accuracy envelope.  For a point of the property's quantifier the bell on the band is the
    sampled analytic density; a rational record within 1e-12 of the real part of its zero-padded orthonormal inverse
    transform, fed to the executable model with the default sppk/npmax and logarithms within 1e-12, yields estimates
@@ -170,6 +338,15 @@ Print Assumptions C07_index_of_is_argmin.
 Print Assumptions C07_logdec_fit_exact_partial.
 Print Assumptions C07_logdec_inv_partial.
 Print Assumptions C07_logdec_chain_exact_partial.
+Print Assumptions C07_svd_rephased_meets_contract.
+Print Assumptions C07_mac_unit_factor.
+Print Assumptions C07_singular_vector_unique.
+Print Assumptions C07_first_singular_pair_unique.
+Print Assumptions C07_bell_svd_independent.
+Print Assumptions C07_efdd_pipeline_svd_independent.
+Print Assumptions C07_bell_rephase_invariant.
+Print Assumptions C07_shape_mac_one.
+Print Assumptions C07_bell_rank_one_any_svd.
 
 (* non-vacuity 1: n = 2, Ur = [[3,-4],[4,3]]/5 (orthogonal), phi = 5 u = (3,4), phi_n = phi/4 = (3/4,1), s = 2, eps = 1/100,
    MAClim = 17/20: the hypotheses of C07_bell_rank_one_partial hold and the two bells are 2*25+1/100 and
@@ -202,3 +379,48 @@ Example C07_example_decay :
   showDecay (efdd_time (map (Qcmult (q 3 7)) ex_corr) (q 24 1) 1 3) = showDecay (efdd_time ex_corr (q 24 1) 1 3) /\
   showErr match efdd_time ex_corr (q 24 1) 5 3 with Err e => e | Ok _ => NoModel end = "E:Index"%string.
 Proof. vm_compute. repeat split; reflexivity. Qed.
+
+(* non-vacuity 3: the hypotheses of C07_bell_svd_independent / C07_first_singular_pair_unique hold on a concrete line with two
+   DIFFERENT decompositions: Sy = 2 phi phi^T + I/100, phi = (3,4), U = the 3-4-5 rotation, U2 = U diag((3+4i)/5, (5-12i)/13)
+   (Model/M_efdd_svd.v); the MAC of the FDD shape (3/4, 1) with the first stored vector is 1 for both, the model's bell on the
+   rephased vectors is the same string, and the hypotheses of C07_shape_mac_one hold for the second decomposition. *)
+Ltac c07_qcc := apply c_eq; apply Qc_is_canon; vm_compute; reflexivity.
+Ltac c07_svd2 :=
+  split; [|split]; intros i j Hi Hj;
+  (destruct i as [|[|i]]; [| |exfalso; apply (Nat.lt_irrefl 0); apply (Nat.lt_le_trans _ _ _ (Nat.lt_0_succ i)); apply Nat.succ_le_mono, Nat.succ_le_mono; exact Hi]);
+  (destruct j as [|[|j]]; [| |exfalso; apply (Nat.lt_irrefl 0); apply (Nat.lt_le_trans _ _ _ (Nat.lt_0_succ j)); apply Nat.succ_le_mono, Nat.succ_le_mono; exact Hj]);
+  c07_qcc.
+Example C07_example_svd_choice :   (* with C07_example_bell: every hypothesis of F3-F6, F8, F9 on one instance *)
+  line_ok QcOps Qcltb 2 ex_Sy ex_U1 ex_U1 ex_S ex_U2 ex_U2 ex_S /\
+  ex_U2 0%nat 0%nat <> ex_U1 0%nat 0%nat /\
+  showQc (mac QcOps 2 (r1_phin Qc QcOps ex_Ur (q 5 4)) (svec_of QcOps (fun _ => ex_U1) 0 0)) = "1/1"%string /\
+  showQc (mac QcOps 2 (r1_phin Qc QcOps ex_Ur (q 5 4)) (svec_of QcOps (fun _ => ex_U2) 0 0)) = "1/1"%string /\
+  svd_ok QcOps 2 (r1c_Sy QcOps (fun i => cofR QcOps (nth i [q 3 1; q 4 1] (q 0 1))) (q 2 1) (q 1 100)) ex_U2 ex_U2 ex_S /\
+  (ex_S 0 * ex_S 0)%Qc <> (q 1 100 * q 1 100)%Qc /\
+  Qcltb (q 1 100) (o0 QcOps) = false /\ Qcltb (q 1 100) (r1_S Qc QcOps (q 5 1) (q 2 1) (q 1 100) 0) = true.
+Proof.
+  split; [|split; [|split; [|split; [|split; [|split; [|split; vm_compute; reflexivity]]]]]].
+  - split; [c07_svd2|split; [c07_svd2|split; [|split]]].
+    + intros j Hj. destruct j as [|[|j]]; [split; vm_compute; reflexivity|split; vm_compute; reflexivity|].
+      exfalso. apply (Nat.lt_irrefl 0). apply (Nat.lt_le_trans _ _ _ (Nat.lt_0_succ j)). apply Nat.succ_le_mono, Nat.succ_le_mono. exact Hj.
+    + intros j Hj. destruct j as [|[|j]]; [split; vm_compute; reflexivity|split; vm_compute; reflexivity|].
+      exfalso. apply (Nat.lt_irrefl 0). apply (Nat.lt_le_trans _ _ _ (Nat.lt_0_succ j)). apply Nat.succ_le_mono, Nat.succ_le_mono. exact Hj.
+    + split; [vm_compute; reflexivity|]. intros j [Hj1 Hj2]. destruct j as [|[|j]].
+      * exfalso. exact (Nat.lt_irrefl 0 Hj1).
+      * vm_compute. reflexivity.
+      * exfalso. apply (Nat.lt_irrefl 0). apply (Nat.lt_le_trans _ _ _ (Nat.lt_0_succ j)). apply Nat.succ_le_mono, Nat.succ_le_mono. exact Hj2.
+  - intros E. apply (f_equal (fun z => this (cim z))) in E. vm_compute in E. discriminate E.
+  - vm_compute. reflexivity.
+  - vm_compute. reflexivity.
+  - c07_svd2.
+  - intros E. apply (f_equal this) in E. vm_compute in E. discriminate E.
+Qed.
+
+(* non-vacuity 4: the executable bell on a rank-one line with the stored vector multiplied by (3+4i)/5 - same output *)
+Example C07_example_rephase :
+  unit_mod QcOps (q 3 5, q 4 5) /\
+  showBell (sdof_bell_lt EFDD 2 1 8 (q 1 1) (q 3 1) (q 1 1) [(q 3 4, q 0 1); (q 1 1, q 0 1)] (q 17 20) 2 [(q 3 5, q 4 5)]
+              [([[(q 1801 100, q 0 1); (q 24 1, q 0 1)]; [(q 24 1, q 0 1); (q 3201 100, q 0 1)]], [q 5001 100], [[(q 3 5, q 0 1); (q 4 5, q 0 1)]]);
+               ([[(q 1801 100, q 0 1); (q 24 1, q 0 1)]; [(q 24 1, q 0 1); (q 3201 100, q 0 1)]], [q 5001 100], [[(q (-3) 5, q 0 1); (q (-4) 5, q 0 1)]])])
+    = "2|4|5001/100,0/1 5001/100,0/1"%string.
+Proof. split; [unfold unit_mod; apply Qc_is_canon; vm_compute; reflexivity|vm_compute; reflexivity]. Qed.
